@@ -40,9 +40,10 @@ ASSUME PrintT(ToJson([rates |-> [exc |-> Rate("exc", "d0"), rec |-> Rate("rec", 
                                  bes |-> [s \in Names |-> Rate("bes", s)], bcx |-> <<Rate("bcx", 1), Rate("bcx", 2), Rate("bcx", 3)>>]]))
 
 VARIABLES model, dens, temp, ne, te, nb,
+          flow,     \* beam models: do the plasma species move (per-species bulk velocities Vel) or rest
           prior     \* what the model object was bound to and evaluated with before the configuration under test:
                     \* "none" (first use), "provider" (another atomic-data provider), "plasma" (another plasma)
-vars == <<model, dens, temp, ne, te, nb, prior>>
+vars == <<model, dens, temp, ne, te, nb, prior, flow>>
 Priors == {"none", "provider", "plasma"}
 Absent == -9
 Present == {s \in Names : dens[s] # Absent}
@@ -53,10 +54,15 @@ Init == /\ model \in Models
         /\ temp \in [Names -> {3}] \cup {[s \in Names |-> IF s \in {"d0", "d1", "c6"} THEN 0 ELSE 3]}
         /\ ne \in NeVals /\ te \in TeVals
         /\ nb \in (IF model \in {"bcx", "bes"} THEN {0, 4} ELSE {0})
+        /\ flow \in (IF model \in {"bcx", "bes"} THEN BOOLEAN ELSE {FALSE})
         /\ prior \in (IF ne = 2 /\ te = 3 THEN Priors ELSE {"none"})      \* re-binding explored at the nominal electron state
         /\ (model \in {"bcx", "bes"} => /\ ne = 2 /\ te = 3 /\ \A s \in Names : dens[s] >= 0 \/ dens[s] = Absent
                                         /\ \E s \in Names : dens[s] > 0 /\ Charge(s) > 0)
 
+\* bulk velocity per species in tenths of the beam speed (beam along +z); each relative velocity (-vx, -vy, 10 - vz) has an
+\* integer length, so the interaction energy / beam energy = |v_b - v_s|^2 / v_b^2 is the exact fraction below
+Vel(s) == CASE s = "d0" -> <<0, 0, 0>> [] s = "d1" -> <<2, 3, 4>> [] s = "he1" -> <<4, 4, 3>> [] s = "c5" -> <<6, 2, 7>> [] s = "c6" -> <<1, 4, 2>>
+EFac(s) == IF flow THEN LET v == Vel(s) IN <<v[1] * v[1] + v[2] * v[2] + (10 - v[3]) * (10 - v[3]), 100>> ELSE <<1, 1>>
 Pos(x) == x > 0
 \* required species per model; a missing one makes the model raise RuntimeError on first use
 Needs == CASE model = "exc" -> {"d0"} [] model = "rec" -> {"d1"} [] model = "tcx" -> {"c6"} [] model = "trp" -> {"c5", "c6"}
@@ -112,7 +118,7 @@ BeamVanishes == (model \in {"bcx", "bes"} /\ nb = 0) => BeamTotal[1] = 0
 \* the totals are functions of the current binding only: nothing in the rules refers to what the model saw before
 \* (Total, BeamTotal and Raises do not mention prior; the harness evaluates the model under the prior binding first)
 
-EmitCase == PrintT(ToJson([model |-> model, prior |-> prior, dens |-> dens, temp |-> temp, ne |-> ne, te |-> te, nb |-> nb, raises |-> Raises,
+EmitCase == PrintT(ToJson([model |-> model, prior |-> prior, flow |-> flow, vel |-> [s \in Names |-> IF flow THEN Vel(s) ELSE <<0, 0, 0>>], efac |-> [s \in Names |-> EFac(s)], dens |-> dens, temp |-> temp, ne |-> ne, te |-> te, nb |-> nb, raises |-> Raises,
                            total |-> Total, unspecified |-> Unspecified, beam_total |-> BeamTotal,
                            needs |-> Needs, donors |-> Donors, hyd |-> Hyd,
                            species |-> Sp, zeff |-> <<SumZ2N, SumZN>>, nion |-> SumN]))
